@@ -223,6 +223,23 @@ pub fn traces() -> Vec<Trace> {
         }
         rich.push(vec![fb(&c, &sv, SYN, 1000, &[], eth), fb(&sv, &c, SYN | ACK, 5000, &[], eth), fb(&c, &sv, ACK | PSH, 1001, if sv.port == 443 { &hello } else { &req }, eth), fb(&sv, &c, ACK | PSH, 5001, &resp, eth)]);
     }
+    // raw-IP connections whose bytes 12/13 are near misses of an IP EtherType (IPv4 clients 134.0.69.1 = 86 00 45 .. and 8.221.69.1 =
+    // 08 dd 45 .. - the third byte reads like the start of an IPv4 header for whoever skips 14 bytes, and the server ports 1030 / 262 put the TCP protocol number where that reader looks for it; an IPv6 client with 86 00 as third group): only a framing test that is exact reads them as what they are
+    {
+        let ep = |v6: bool, a: &[u8], port: u16| {
+            let mut addr = [0u8; 16];
+            addr[..a.len()].copy_from_slice(a);
+            crate::props::c10::Ep { v6, addr, port }
+        };
+        for (c, sv) in [
+            (ep(false, &[134, 0, 0x45, 1], 40020), ep(false, &[10, 0, 0, 2], 1030)),
+            (ep(false, &[134, 0, 1, 1], 40023), ep(false, &[10, 0, 0, 2], 80)),
+            (ep(false, &[8, 221, 0x45, 1], 40021), ep(false, &[10, 0, 0, 2], 262)),
+            (ep(true, &[0x20, 1, 0xd, 0xb8, 0x86, 0, 0x45, 0, 0, 0, 0, 0, 0, 0, 0, 1], 40022), ep(true, &[0x20, 1, 0xd, 0xb8, 0, 0, 0, 0, 0, 0, 0, 0, 0, 0, 0, 2], 80)),
+        ] {
+            rich.push(vec![fb(&c, &sv, SYN, 1000, &[], false), fb(&sv, &c, SYN | ACK, 5000, &[], false), fb(&c, &sv, ACK | PSH, 1001, if sv.port == 443 { &hello } else { &req }, false), fb(&sv, &c, ACK | PSH, 5001, &resp, false)]);
+        }
+    }
     for (i, x) in rich.iter().enumerate() {
         v.push(Trace { name: format!("rich-addresses/{i}/connection"), frames: x.clone() });
         for (j, y) in rich.iter().enumerate() {
